@@ -69,3 +69,7 @@ func (c *Conn) VerifWriteCompression() bool  { return c.enableWriteCompression }
 func VerifKeyGUID() string             { return string(keyGUID) }
 func VerifIsTokenOctet(b byte) bool    { return isTokenOctet[b] }
 func VerifAcceptKey(key string) string { return acceptKeyString(key) }
+
+// VerifSetReleasePayload: what Upgrade derives from Upgrader.ReleasePayload / Engine.ReleaseWebsocketPayload
+// (the payload buffer goes back to the pool when the message callback returns).
+func (c *Conn) VerifSetReleasePayload(b bool) { c.releasePayload = b }
